@@ -132,6 +132,13 @@ class Transaction:
         the live file, because the listed key "data/f" matched no manifest
         entry. Only the canonical spelling (optionally with leading slashes)
         is accepted.
+
+        The file must also live under the table's data/ directory. A collection
+        keeps referenced data files only in its sweep of data/: a data file
+        accepted at "metadata/manifests/f" was deleted by the manifest sweep
+        (which keeps reachable manifests and lists only), one at
+        "metadata/inflight/f.inflight" by the abandoned-marker sweep, while
+        retained snapshots still referenced them.
         """
         import posixpath
 
@@ -140,6 +147,12 @@ class Transaction:
             raise ValueError(
                 f"Data file path {file_path!r} is not a canonical table-relative path "
                 f"(empty, or contains '//', './' or '../' components)"
+            )
+        if not rel.startswith("data/"):
+            raise ValueError(
+                f"Data file path {file_path!r} is not under the table's data/ directory. "
+                f"Garbage collection protects referenced data files only there; the "
+                f"metadata/ directories are swept for orphan manifests and abandoned markers."
             )
 
     def _validate_file_schema(self, data_file: DataFile, table_schema: Schema) -> None:
